@@ -236,6 +236,27 @@ def gen(ctx):
             add("writer_bool_pack", {"count": n, "pattern": pat},
                 {"k": "pack_bools", "vals": vals}, f"kern pack_bools vals={fmt_list(vals)}",
                 {"out": pack_py(padded, 1).hex(), "prefix": pack_py(vals, 1).hex()}, nontrivial=n >= 1)
+    # ---- booleans whose padding bits (beyond `count`, inside the last byte and in bytes that follow) are NOT zero:
+    # the specification gives them no meaning, so a reader must ignore them (count = 1 is what statistics decode)
+    for n in ([1, 2, 3, 7, 9, 15, 17] if quick else list(range(1, 26))):
+        for fill in ("ones", "rand"):
+            vals = patterns(rng, 1, n, "alt" if fill == "ones" else "rand")
+            buf = bytearray(pack_py(vals, 1))
+            if n % 8:
+                junk = 0xFF if fill == "ones" else rng.randrange(256)
+                buf[-1] |= (junk << (n % 8)) & 0xFF
+            buf += bytes([0xFF if fill == "ones" else rng.randrange(256)])
+            add("read_plain_boolean", {"count": n, "pattern": "padding-" + fill},
+                {"k": "plain_bool", "in": bytes(buf).hex(), "count": n},
+                f"kern plain_bool in={hexs(bytes(buf))} count={n}", {"out": vals},
+                spec=f"spec bools_unpack n={n} in={hexs(bytes(buf))}", nontrivial=True)
+    for byte in ([0x00, 0x01, 0x02, 0x03, 0x80, 0xFE, 0xFF, 0x54, 0xAA] if quick else range(256)):
+        for n in (1, 2):
+            vals = [(byte >> i) & 1 for i in range(n)]
+            add("read_plain_boolean", {"count": n, "pattern": "first-byte-%02x" % byte},
+                {"k": "plain_bool", "in": bytes([byte]).hex(), "count": n},
+                f"kern plain_bool in={hexs(bytes([byte]))} count={n}", {"out": vals},
+                spec=f"spec bools_unpack n={n} in={hexs(bytes([byte]))}", nontrivial=True)
     return cases
 
 
